@@ -1220,6 +1220,10 @@ func genFuncs(ps []pkgInfo) (string, error) {
 			}
 		}
 	}
+	varOrder = varOrder[:0]
+	for n := range byteVars {
+		varOrder = append(varOrder, n)
+	}
 	sort.Strings(varOrder)
 	for _, n := range varOrder {
 		fmt.Fprintf(&b, "Definition %s : bytes := %s.\n", n, byteVars[n])
